@@ -139,7 +139,7 @@ MANIFEST_TEXT = {
                "limit-value length words, truncation, floods, half-sent messages, abrupt closes, many unauthenticated connections, clock jumps past auth_timeout) interleaved with a "
                "well-behaved pair and a bystander subscribed to everything; oracles: no sanitizer/assert/abort, quiescence within a step bound after faults stop (no spin), the pair's "
                "round trips answered correctly, the bus dispatches from a hostile stream only messages the independent codec accepts and disconnects the sender of an invalid one, "
-               "incomplete-connection cap and auth_timeout enforced (bounded liveness), memory blocks and descriptors back to baseline at the end. A quarter of the hostile messages are well-formed but for one structural defect (the single-site corruptions of the stream checks: out-of-range boolean alone or inside an array, NUL / bad UTF-8 anywhere inside long ASCII runs, bad names, paths, signatures, duplicate / wrong-typed / missing fields).",
+               "incomplete-connection cap and auth_timeout enforced (bounded liveness), memory blocks and descriptors back to baseline at the end. A quarter of the hostile messages are well-formed but for one structural defect (the single-site corruptions of the stream checks: out-of-range boolean alone or inside an array, NUL / bad UTF-8 anywhere inside long ASCII runs, bad names, paths, signatures, duplicate / wrong-typed / missing fields). A quarter of the plans set a small max_incoming_bytes: a client floods a bystander that does not read until the bus stops reading from the flooder, closes abruptly, and is then addressed - the bus must notice the hang-up, must not spin (a main loop that keeps reporting work without input is the failure class nonquiescent) and must go on serving. Only bytes the bus has actually read are held against it.",
                "DESIGN.md section 4 C10", "deterministic simulation with hostile-actor fault injection, safety invariants + bounded liveness"),
     "C13": _mt("Seeded search over histories of connect/Hello/close by several simulated users, RequestName/ReleaseName, AddMatch/RemoveMatch, outstanding calls and messages around the "
                "size limit, with a random subset of limits configured to 1..5; white-box invariant after every bus step (registered, per-user, incomplete connections, names and "
@@ -201,7 +201,7 @@ MANIFEST_TEXT = {
                "the real loader through the simulated socket in all-one-byte, single-cut, header-biased and random partitions, with the handshake-to-message boundary inside or outside "
                "one write, an independent per-read size limit (knob), short reads, EINTR, spurious readiness and allocation failures; in the same run the same stream is delivered to a "
                "second connection unsplit and fault-free. Oracle (metamorphic + codec): both deliveries produce the same message sequence (byte-identical) and the same corruption "
-               "verdict, every message complete before the first invalid one is delivered, none after.",
+               "verdict, every message complete before the first invalid one is delivered, none after. The writing side: in 45% of the plans the valid messages are then sent by the library to a third peer through short writes, EAGAIN, EINTR and a peer with a tiny socket buffer; the peer must read exactly those bytes in order (oracle:C11:written-stream-differs).",
                "DESIGN.md section 4 C11", "deterministic simulation, seeded search over stream partitions and read schedules, metamorphic oracle",
                note="Trusted base: simulated kernel stream semantics, independent codec. The writer side (partial writes of queued outgoing messages) is exercised by every simbus check "
                     "(short-write / EAGAIN faults on the daemon's sockets, small peer buffers), where a corrupted outgoing stream fails the codec at the receiving actor. Sampling: evidence, not proof."),
@@ -270,7 +270,7 @@ MANIFEST_TEXT = {
                "exactly the allowed mechanisms, ERROR, DATA, OK <guid>); the connection counts as authenticated iff the model reached BEGIN after a completed permitted mechanism AND the "
                "admission rule admits that identity; the uid / anonymity / pid the application sees equal what the mechanism established; the application receives exactly the complete "
                "messages that follow the accepted BEGIN (no handshake byte becomes message data); BEGIN out of place, the 6th rejection or a line beyond 16 KiB end the connection, and "
-               "nothing else does.",
+               "nothing else does. EXTERNAL and cookie identities include near misses of the peer's own uid (a digit more or less, leading zero, C-style octal / hex, 2^32 more, trailing blank): never OK unless some reading denotes the peer's own uid.",
                "DESIGN.md section 4 C08, Appendix D", "deterministic simulation, seeded input and chunking search, reference state machine oracle over the recorded byte history",
                note="Trusted base: simulated kernel (stream, SO_PEERCRED, NSS), the AuthModel and SHA-1 of the independent codec, the real file system for the scratch keyring. Pinned where the "
                     "specification is silent: the rejection bound (6), identities that are not plain digits (either verdict accepted, never for another uid), NEGOTIATE_UNIX_FD answered "
